@@ -25,7 +25,9 @@ import (
 	"sort"
 	"strings"
 	"sync"
+	"sync/atomic"
 	"testing"
+	"time"
 
 	"github.com/google/osv-scalibr/artifact/image/require"
 	scalibrfs "github.com/google/osv-scalibr/fs"
@@ -180,7 +182,41 @@ type c17Tally struct {
 
 // c17CheckPath compares Stat / Open / ReadDir of one path with the resolver's answer.
 // strictOpen / strictBoundary are false when the corresponding class is a known finding.
+//
+// The statement's first clause is termination: the queries of one path run under a watchdog,
+// and a path whose queries do not return is reported (the spinning goroutine is abandoned and
+// the enumeration stops early, see c17Hung).
 func c17CheckPath(fsys scalibrfs.FS, v overlay.View, p string, depth int, strictOpen, strictBoundary bool, col *ev.Collector, tl *c17Tally) error {
+	if c17Hung.Load() {
+		return errC17Abandoned
+	}
+	local := *tl
+	done := make(chan error, 1)
+	go func() { done <- c17CheckPathQueries(fsys, v, p, depth, strictOpen, strictBoundary, col, &local) }()
+	timer := time.NewTimer(c17HangLimit)
+	defer timer.Stop()
+	select {
+	case err := <-done:
+		*tl = local
+		return err
+	case <-timer.C:
+		c17Hung.Store(true)
+		r := overlay.Resolve(v, p, depth)
+		return fmt.Errorf("Stat / Open / ReadDir of %s do not return within %v: opening or stat-ing a path whose final component is a symlink must always terminate (reference: %s after %d hop(s) via %s, budget %d)", p, c17HangLimit, r.Status, r.Hops, strings.Join(r.Trail, " -> "), depth)
+	}
+}
+
+// c17HangLimit bounds the queries of one path (they take microseconds).
+const c17HangLimit = 20 * time.Second
+
+var (
+	// c17Hung is set once a query did not return: its goroutine keeps spinning, so the
+	// remaining work of this process is abandoned (the hang itself is the reported violation).
+	c17Hung         atomic.Bool
+	errC17Abandoned = errors.New("abandoned: an earlier query of this run did not terminate")
+)
+
+func c17CheckPathQueries(fsys scalibrfs.FS, v overlay.View, p string, depth int, strictOpen, strictBoundary bool, col *ev.Collector, tl *c17Tally) error {
 	r := overlay.Resolve(v, p, depth)
 	if n, ok := v[p]; ok && n.Kind == overlay.Symlink {
 		tl.symlinkQueries++
@@ -509,6 +545,10 @@ func c17RunBatch(col *ev.Collector, job c17Job, depths []int) []c17Result {
 		for k, code := range codes {
 			var tl c17Tally
 			cerr := c17CheckGraph(chains, fmt.Sprintf("g%d", k), states[k], d, col, &tl, false)
+			if errors.Is(cerr, errC17Abandoned) {
+				ld.Close()
+				return out
+			}
 			if cerr == nil && k == badGraph {
 				cerr = lerr
 			}
